@@ -200,7 +200,9 @@ func fingerprint(b *strings.Builder, v reflect.Value, all []lexer.Token, depth i
 
 func (s *state) key(all []lexer.Token) string {
 	var b strings.Builder
-	o := observe(&s.pl, all)
+	probe := s.pl // observers run on a copy: computing the key of a state must not touch the state (an observer that
+	// synchronises lazily would otherwise be helped along by the explorer itself)
+	o := observe(&probe, all)
 	fmt.Fprintf(&b, "%d,%d,%d|%d|", o.raw, o.peek, o.cursor, s.r)
 	fingerprint(&b, reflect.ValueOf(&s.pl).Elem(), all, 0)
 	for k := 0; k < 2; k++ {
